@@ -70,6 +70,16 @@ TXT = {
 }
 
 
+TXT["t2_2_shared"] = TXT["t2_2_like"].replace("{V^{ij}_{ab}}", "{V^{ab}_{kl}}")
+# V^{ab}_{ij} t2_2^{cd}_{ij} with the doubles fully expanded and symmetry-equivalent terms merged
+# (4 terms): factoring it has to spread a term onto the equivalent terms of the intermediate
+TXT["t2_2_sym4"] = (
+    r"- \frac{{V^{cd}_{ef}} {V^{ij}_{ab}} {V^{ij}_{ef}}}{2 \left({e_{c}} + {e_{d}} - {e_{i}} - {e_{j}}\right) \left({e_{e}} + {e_{f}} - {e_{i}} - {e_{j}}\right)} "  # noqa: E501
+    r"+ \frac{2 {V^{ie}_{kc}} {V^{ij}_{ab}} {V^{jk}_{de}}}{\left({e_{c}} + {e_{d}} - {e_{i}} - {e_{j}}\right) \left({e_{d}} + {e_{e}} - {e_{j}} - {e_{k}}\right)} "  # noqa: E501
+    r"+ \frac{2 {V^{ij}_{ab}} {V^{ik}_{ce}} {V^{je}_{kd}}}{\left({e_{c}} + {e_{d}} - {e_{i}} - {e_{j}}\right) \left({e_{c}} + {e_{e}} - {e_{i}} - {e_{k}}\right)} "  # noqa: E501
+    r"- \frac{{V^{ij}_{ab}} {V^{ij}_{kl}} {V^{kl}_{cd}}}{2 \left({e_{c}} + {e_{d}} - {e_{i}} - {e_{j}}\right) \left({e_{c}} + {e_{d}} - {e_{k}} - {e_{l}}\right)}")  # noqa: E501
+
+
 def imp(w, key, real=False, targets=None):
     from adcgen import import_from_sympy_latex
     e = import_from_sympy_latex(TXT[key], convert_default_names=True)
@@ -440,6 +450,24 @@ for _types in ("t2_1", "t2_2", ["t2_1", "t2_2"], ["t2_1", "t1_2", "t2_2"]):
         def _(w):
             from adcgen import factor_intermediates
             e = imp(w, "t2_2_like", real=True, targets="ijklabcd")
+            return factor_intermediates(e, types_or_names=types)
+    _mk(_types)
+
+
+for _types in ("t2_2", ["t2_1", "t2_2"]):
+    def _mk(types):
+        label = types if isinstance(types, str) else "+".join(types)
+
+        @tmpl(f"expr.factor_intermediates(t2_2_shared,{label})", "expr", "abcd", cost=6)
+        def _(w):
+            from adcgen import factor_intermediates
+            e = imp(w, "t2_2_shared", real=True, targets="abcd")
+            return factor_intermediates(e, types_or_names=types)
+
+        @tmpl(f"expr.factor_intermediates(t2_2_sym4,{label})", "expr", "abcd", cost=4)
+        def _(w):
+            from adcgen import factor_intermediates
+            e = imp(w, "t2_2_sym4", real=True, targets="abcd")
             return factor_intermediates(e, types_or_names=types)
     _mk(_types)
 
